@@ -210,7 +210,9 @@ def make_order_body(cls_name, which, perm, quat, nsign=None):
             P.append([s * p[k] + t[k] for k in range(3)])
         inp = H.arr(P)
         keep = [list(r) for r in inp]
-        kw = {} if nsign is None else dict(normal=H.arr([H.num(x) for x in nvec]))
+        nin = None if nsign is None else H.arr([H.num(3 * x) for x in nvec])
+        nkeep = None if nin is None else list(nin)
+        kw = {} if nsign is None else dict(normal=nin)
         if cls_name == "ConvexPolygon":
             shp = S.ConvexPolygon(inp, **kw)
             core = shp
@@ -221,6 +223,8 @@ def make_order_body(cls_name, which, perm, quat, nsign=None):
         nrm = list(core.normal)
         if nsign is not None:
             H.claim_all_eq("normal=requested", nrm, nvec)
+            H.claim_all_eq("caller_normal_unchanged", list(nin), nkeep)
+            H.claim("normal_stored_as_a_copy", not bool(rnp.shares_memory(core._normal, nin)))
         m = O.polygon_measures(vs, nrm)
         H.claim("ccw_about_normal", m["A"] > 0)
         # same cyclic sequence as the convex cycle (either direction is excluded by the sign above)
@@ -262,13 +266,17 @@ def explicit_normal_body(cname, reverse, nsign, quat, start):
             P.append([s * p[k] + t[k] for k in range(3)])
         inp = H.arr(P)
         keep = [list(r) for r in inp]
+        nin = H.arr([H.num(2 * x) for x in nvec])  # any positive multiple of the unit normal is a normal vector
+        nkeep = list(nin)
         try:
-            poly = S.Polygon(inp, normal=H.arr([H.num(x) for x in nvec]))
+            poly = S.Polygon(inp, normal=nin)
         except ValueError as ex:
             H.fail("accepted", "ValueError: %s" % str(ex)[:100])
             return
         H.ok("accepted")
         H.claim_all_eq("normal=requested", list(poly.normal), nvec)
+        H.claim_all_eq("caller_normal_unchanged", list(nin), nkeep)
+        H.claim("normal_stored_as_a_copy", not bool(__import__("numpy").shares_memory(poly._normal, nin)))
         H.claim_all_eq("stored_vertices=input", poly.vertices, keep)
         want_positive = (not reverse) == (nsign > 0)
         H.claim("signed_area_sign", (poly.signed_area > 0) if want_positive else (poly.signed_area < 0))
